@@ -9,6 +9,8 @@ def norm(e, clone_transparent=False):
     if not isinstance(e, tuple) or not e or not isinstance(e[0], str):
         return e
     t = e[0]
+    if t == 'named':
+        return norm(e[2], clone_transparent)
     if t in ('ref', 'deref'):
         return norm(e[1], clone_transparent)
     if t == 'cast' and (e[3] in TRANSPARENT_CASTS or e[3].startswith('PointerCoercion')):
